@@ -19,6 +19,7 @@ import threading
 import time
 import warnings
 
+import c41_multi
 import k2
 import k2m
 import lib
@@ -658,7 +659,10 @@ FAM = {"from_future": (gen_from_future, run_from_future, g_from_future, oracle_f
        "to_async": (gen_to_async, run_to_async, g_to_async, oracle_to_async),
        "from_callback": (gen_from_callback, run_from_callback, g_from_callback, oracle_from_callback),
        # oracle only (real timer threads): no model case
-       "to_async_default": (gen_to_async_default, run_to_async_default, None, oracle_to_async_default)}
+       "to_async_default": (gen_to_async_default, run_to_async_default, None, oracle_to_async_default),
+       # oracle only: ONE bridge object (to_async's converted function, from_callback's factory, start / from_future /
+       # start_async with the same function) invoked several times, several subscribers per invocation: c41_multi.py
+       "reinvoke": (c41_multi.gen, c41_multi.run_case, None, c41_multi.oracle)}
 
 
 def forced_cases(fam):
@@ -699,6 +703,8 @@ def forced_cases(fam):
         for via in ("to_async", "start"):
             for r in (["ok", None], ["ok", 7], ["raise", 71]):
                 out.append({"family": fam, "via": via, "args": [2, 5, 1] if via == "to_async" else [], "r": r})
+    elif fam == "reinvoke":
+        out = c41_multi.forced()
     return out
 
 
@@ -728,15 +734,21 @@ def run(chk):
             "to_async_nonzero_arguments": 0, "default_timeout_scheduler": 0}
     for k in NOTES:
         NOTES[k] = 0
-    for fam in FAMILIES + ["to_async_default"]:
+    c41_multi.TIMEOUTS[0] = 0
+    for fam in FAMILIES + ["to_async_default", "reinvoke"]:
         gen, runner, gal, orc = FAM[fam]
         n = ncase if fam != "run" else max(60, ncase // 3)
         if fam == "to_async_default":
             n = {"quick": 10, "thorough": 60}[chk.tier]
+        n_threads = 0
+        if fam == "reinvoke":             # the last n_threads cases run on the default TimeoutScheduler threads
+            n_threads = {"quick": 10, "thorough": 60}[chk.tier]
+            n = 3 * ncase + n_threads
         forced = forced_cases(fam)
         hist["forced_cases"] += len(forced)
         for i in range(len(forced) + n):
-            c = forced[i] if i < len(forced) else gen(chk.rng)
+            c = forced[i] if i < len(forced) else (
+                c41_multi.gen_default(chk.rng) if i >= len(forced) + n - n_threads else gen(chk.rng))
             chk.cov["evaluations"] += 1
             per[fam] = per.get(fam, 0) + 1
             try:
@@ -747,7 +759,10 @@ def run(chk):
                 continue
             gi, go = gal(c, r) if gal else (json.dumps(c, sort_keys=True), None)
             v = orc(c, r)
-            if v:
+            if v and fam == "reinvoke":
+                chk.violation(f"C41|reinvoke|{c['kind']}|{v.split(':')[0]}", {"case": c, "observed": r, "what": v},
+                              size=len(json.dumps(c)))
+            elif v:
                 chk.violation(f"C41|{fam}|{v[:60]}", {"case": c, "model_case": gi, "observed": go, "what": v},
                               size=len(json.dumps(c)))
             else:
@@ -775,6 +790,8 @@ def run(chk):
             if fam in ("to_async", "to_async_default"):
                 hist["to_async_nonzero_arguments"] += bool(c["args"])
                 hist["default_timeout_scheduler"] += fam == "to_async_default"
+            if fam == "reinvoke":
+                c41_multi.stats(c, hist)
             if fam == "from_callback":
                 hist["mapper"] += c["mapper"] is not None
                 hist["zero_callback_arguments"] += bool((c["sync"] + c["later"]) and not (c["sync"] + c["later"])[0])
@@ -813,13 +830,24 @@ def run(chk):
                        "without future_ctor outside a running loop; also as hot-source kind 'default'); to_async called "
                        "with 1-3 generated non-zero arguments, the arguments received by the function are compared; "
                        "to_async_default (oracle only): start / to_async on their default TimeoutScheduler, waited for "
-                       "on a threading.Event; non-trivial = distinct model cases (per route for run) on which the "
+                       "on a threading.Event; reinvoke (oracle only, harness/c41_multi.py): ONE converted function "
+                       "rx.to_async(func, scheduler) invoked 2-5 times with different arguments (outcome = table on the "
+                       "arguments: different results, some calls raise), rx.start(func, scheduler) repeated 2-4 times "
+                       "(k-th call of func has the k-th outcome), ONE rx.from_callback factory invoked 2-3 times with "
+                       "1-2 subscriptions each (own handler invocations), rx.from_future / rx.start_async(same function) "
+                       "for 2-3 futures; 1-3 subscribers per invocation subscribed before / after the scheduled call "
+                       "runs, actions of the invocations interleaved at random (70%) or one invocation after the other, "
+                       "proxy / immediate / default TimeoutScheduler; each subscriber still subscribed when its "
+                       "invocation's call has run must receive exactly that invocation's result + completion or its "
+                       "exception, never anything else; the function is called once per invocation that ran with that "
+                       "invocation's arguments; non-trivial = distinct model cases (per route for run) on which the "
                        "oracle held")
     chk.cov["input_distribution"] = {"per_family": per, **hist}
     chk.add_samples([{"case": c[0], "observed": c[1]} for c in cases[:: max(1, len(cases) // 6)]][:6])
     return chk.finish(
         trusted_extra=["spying future subclasses, private asyncio loop stepped by the harness, hot/cold sources and "
-                       "watchdog of harness/props/C41.py; proxy scheduler of harness/k2m.py for to_async/start"],
+                       "watchdog of harness/props/C41.py; proxy scheduler of harness/k2m.py for to_async/start; scenario "
+                       "generator, runners and oracle of the reinvoke family in harness/c41_multi.py"],
         assumptions=["asyncio done-callbacks run when the harness steps the loop (after every action): the model places "
                      "them at the position of that action",
                      "real threads (run() woken by another thread, start()/to_async on TimeoutScheduler timer threads) "
